@@ -137,10 +137,11 @@ def run(ctx):
     bad = []
     n_rows = 0
     try:
-        for i1 in range(0, 3):
-            for ln_a in range(0, 3):
-                for j1 in range(0, 3):
-                    for ln_b in range(0, 3):
+        top = 6 if ctx.tier == "thorough" else 3
+        for i1 in range(0, top):
+            for ln_a in range(0, top):
+                for j1 in range(0, top):
+                    for ln_b in range(0, top):
                         env = {"i1": i1, "i2": i1 + ln_a, "j1": j1, "j2": j1 + ln_b, "lineterm": b"\n"}
                         got = it2.expr(hdr[0].value, env)
                         want = b"@@ -%d,%d +%d,%d @@\n" % (i1 + 1, ln_a, j1 + 1, ln_b)
